@@ -526,3 +526,94 @@ Proof.
   - apply zrange_In. lia.
 Qed.
 
+
+(* ---- the result of add_range does not depend on the iteration order ------------------ *)
+Definition overlapb (lo hi : Z) (r : Z * Z) : bool := (lo <=? snd r) && (fst r <=? hi).
+
+(* under the invariant, the one pass removes exactly the ranges overlapping the ORIGINAL new
+   range and the merged range is the hull of those and the new range *)
+Lemma merge_pass_canonical rs : forall lo hi l h kept,
+  merge_pass rs lo hi = (l, h, kept) ->
+  lo <= hi -> Forall (fun r => fst r <= snd r) rs -> pairwise_apart rs ->
+  kept = filter (fun r => negb (overlapb lo hi r)) rs
+  /\ l = fold_right Z.min lo (map fst (filter (overlapb lo hi) rs))
+  /\ h = fold_right Z.max hi (map snd (filter (overlapb lo hi) rs)).
+Proof.
+  induction rs as [|[ol oh] rest IH]; intros lo hi l h kept Hm Hle Hwf Hpw; cbn [merge_pass] in Hm.
+  - inversion Hm; subst. cbn. auto.
+  - inversion Hwf as [|x y Hx Hwf']; subst. cbn [fst snd] in Hx.
+    destruct Hpw as [Hnd Hpw]. inversion Hnd as [|x y Hnin Hnd']; subst.
+    assert (Hpw' : pairwise_apart rest).
+    { split; [exact Hnd'|]. intros r1 r2 H1 H2 Hne. apply Hpw; [right; exact H1|right; exact H2|exact Hne]. }
+    assert (Hap : forall r, In r rest -> no_overlap (ol, oh) r /\ fst r <= snd r).
+    { intros r Hr. split.
+      - apply Hpw; [left; reflexivity|right; exact Hr|]. intros Heq. apply Hnin. rewrite Heq. exact Hr.
+      - rewrite Forall_forall in Hwf'. apply Hwf', Hr. }
+    assert (Eo : overlapb lo hi (ol, oh) = (lo <=? oh) && (ol <=? hi)) by reflexivity.
+    cbn [filter]. rewrite !Eo.
+    destruct ((lo <=? oh) && (ol <=? hi)) eqn:E; cbn [negb].
+    + destruct (IH _ _ _ _ _ Hm ltac:(lia) Hwf' Hpw') as [Hk [Hl Hh]].
+      assert (Hext : forall r, In r rest -> overlapb (Z.min lo ol) (Z.max hi oh) r = overlapb lo hi r).
+      { intros r Hr. destruct (Hap r Hr) as [Hno Hw]. unfold no_overlap in Hno. cbn [fst snd] in Hno.
+        unfold overlapb. lia. }
+      assert (Hf : filter (overlapb (Z.min lo ol) (Z.max hi oh)) rest = filter (overlapb lo hi) rest)
+        by (apply filter_ext_in; exact Hext).
+      assert (Hfn : filter (fun r => negb (overlapb (Z.min lo ol) (Z.max hi oh) r)) rest
+                    = filter (fun r => negb (overlapb lo hi r)) rest)
+        by (apply filter_ext_in; intros r Hr; rewrite (Hext r Hr); reflexivity).
+      rewrite Hf in Hl, Hh. rewrite Hfn in Hk. split; [exact Hk|]. cbn [map fold_right fst snd].
+      assert (Hmin : forall l0 a b, fold_right Z.min (Z.min a b) l0 = Z.min b (fold_right Z.min a l0))
+        by (induction l0 as [|x l0 IHl]; intros a b; cbn [fold_right]; [lia|rewrite IHl; lia]).
+      assert (Hmax : forall l0 a b, fold_right Z.max (Z.max a b) l0 = Z.max b (fold_right Z.max a l0))
+        by (induction l0 as [|x l0 IHl]; intros a b; cbn [fold_right]; [lia|rewrite IHl; lia]).
+      rewrite Hl, Hh, Hmin, Hmax. auto.
+    + destruct (merge_pass rest lo hi) as [[l' h'] k'] eqn:E2. inversion Hm; subst.
+      destruct (IH _ _ _ _ _ E2 Hle Hwf' Hpw') as [Hk [Hl Hh]]. subst k'. auto.
+Qed.
+
+Lemma perm_filter {A} (f : A -> bool) l l' : Permutation l l' -> Permutation (filter f l) (filter f l').
+Proof.
+  induction 1 as [|x l l' Hp IH|x y l|l l' l'' H1 IH1 H2 IH2]; cbn [filter].
+  - constructor.
+  - destruct (f x); [constructor; exact IH|exact IH].
+  - destruct (f x), (f y); try apply Permutation_refl; apply perm_swap.
+  - eapply Permutation_trans; [exact IH1|exact IH2].
+Qed.
+
+Lemma fold_min_perm a l l' : Permutation l l' -> fold_right Z.min a l = fold_right Z.min a l'.
+Proof. induction 1; cbn [fold_right]; lia. Qed.
+Lemma fold_max_perm a l l' : Permutation l l' -> fold_right Z.max a l = fold_right Z.max a l'.
+Proof. induction 1; cbn [fold_right]; lia. Qed.
+
+Theorem add_range_order_independent s s' lo hi :
+  inv s -> lo <= hi -> st_perm s s' -> st_perm (add_range s lo hi) (add_range s' lo hi).
+Proof.
+  intros Hi Hle Hp. pose proof (inv_perm s s' Hp Hi) as Hi'. destruct Hp as [Pv Pr].
+  assert (Hres : forall t, inv t -> exists l h,
+            add_range t lo hi = mkVS (filter (fun v => negb ((lo <=? v) && (v <=? hi))) (vs_values t))
+                                     ((l, h) :: filter (fun r => negb (overlapb lo hi r)) (vs_ranges t))
+            /\ l = fold_right Z.min lo (map fst (filter (overlapb lo hi) (vs_ranges t)))
+            /\ h = fold_right Z.max hi (map snd (filter (overlapb lo hi) (vs_ranges t)))).
+  { intros t [Hw [Hv [Hpw Hout]]]. unfold add_range.
+    destruct (merge_pass (vs_ranges t) lo hi) as [[l h] kept] eqn:E.
+    destruct (merge_pass_canonical _ _ _ _ _ _ E Hle Hw Hpw) as [Hk [Hl Hh]].
+    pose proof (merge_pass_apart _ _ _ _ _ _ E Hle Hw Hpw) as Hap. rewrite Forall_forall in Hap.
+    destruct (merge_pass_wf _ _ _ _ _ _ E Hle Hw) as [Hlh _].
+    exists l, h. split; [|auto]. unfold range_set_add. destruct (rmem (l, h) kept) eqn:Em.
+    - exfalso. apply rmem_In in Em. specialize (Hap _ Em). unfold no_overlap in Hap. cbn [fst snd] in Hap. lia.
+    - rewrite Hk. reflexivity. }
+  destruct (Hres s Hi) as [l [h [Hs [Hl Hh]]]]. destruct (Hres s' Hi') as [l' [h' [Hs' [Hl' Hh']]]].
+  assert (Pf : Permutation (filter (overlapb lo hi) (vs_ranges s)) (filter (overlapb lo hi) (vs_ranges s')))
+    by (apply perm_filter, Pr).
+  assert (l = l') by (rewrite Hl, Hl'; apply fold_min_perm, Permutation_map, Pf).
+  assert (h = h') by (rewrite Hh, Hh'; apply fold_max_perm, Permutation_map, Pf).
+  subst l' h'. rewrite Hs, Hs'. split; cbn [vs_values vs_ranges].
+  - apply perm_filter, Pv.
+  - rewrite <- H, <- H0. apply perm_skip. apply perm_filter, Pr.
+Qed.
+
+Lemma add_value_order_independent s s' v : st_perm s s' -> st_perm (add_value s v) (add_value s' v).
+Proof.
+  intros Hp. unfold add_value. rewrite <- (st_contains_perm s s' v Hp).
+  destruct (st_contains s v); [exact Hp|]. destruct Hp as [Pv Pr]. split; cbn [vs_values vs_ranges]; [apply perm_skip; exact Pv|exact Pr].
+Qed.
